@@ -3,7 +3,8 @@
 Engine E2: `NS`, `getNS`, `MP`, `getMP` are recompiled from /repo's source onto LBytes.  `struct` is
 the arithmetic shim of vlib.lbytes; `cryptography.utils.int_to_bytes` (C: int.to_bytes/bit_length)
 and `int.from_bytes` are rebound to pure-Python big-endian byte loops (validated against the C
-versions in selftest()); `ord` is rebound so that ord(<1-byte LBytes>) works.  The keys half of the
+versions in selftest()); `ord` is rebound so that ord(<1-byte LBytes>) works and `x & 128` is
+computed arithmetically (lift bitops=True; CrossHair would realise x).  The keys half of the
 property (Key.toString/fromString: cryptography/OpenSSL) is NOT claimed.
 """
 from vlib import api, lbytes, lift
@@ -14,12 +15,12 @@ PROPERTY = "C37"
 LEVEL = "model_checking"
 ENCODED = ["twisted.conch.ssh.common:NS", "twisted.conch.ssh.common:getNS",
            "twisted.conch.ssh.common:MP", "twisted.conch.ssh.common:getMP"]
-BOUNDS = {"quick": {"s": 3, "r": 2, "bits": 24, "s2": 2}, "thorough": {"s": 5, "r": 3, "bits": 40, "s2": 3}}
+BOUNDS = {"quick": {"s": 4, "r": 2, "bits": 64, "s2": 2}, "thorough": {"s": 8, "r": 3, "bits": 512, "s2": 4}}
 B = {}
 BOUNDS_TEXT = ("net strings of <= s symbolic bytes (all 256 values) followed by <= r symbolic rest bytes; "
                "two consecutive net strings of <= s2 bytes each with count=2; multiple precision integers "
                "0 <= n < 2**bits (one path family per byte length, all values inside symbolic) followed by "
-               "<= r rest bytes; two consecutive integers (first in {0, 128, 65535}, second any value < 2**16) with count=2 and one rest byte")
+               "<= r rest bytes; two consecutive integers < 2**16 with count=2 and <= 1 rest byte")
 OUTSIDE = ["the keys half of the property (Key.toString/fromString for RSA/DSA/ECDSA/Ed25519, passphrases, "
            "fingerprints): it runs inside cryptography/OpenSSL, opaque to the solver - NOT claimed",
            "strings longer than s bytes and integers >= 2**bits (the code is uniform in the length: one "
@@ -80,7 +81,7 @@ def _ord(x):
 
 L = lift.lift("twisted.conch.ssh.common", names=["NS", "getNS", "MP", "getMP"],
               overrides={"int_to_bytes": _int_to_bytes},
-              extra_shims={"int": _IntNS, "ord": _ord})
+              extra_shims={"int": _IntNS, "ord": _ord}, bitops=True)
 
 
 def _val(body):
@@ -166,7 +167,7 @@ def mp_roundtrip(n: int, r: str) -> bool:
 
 def mp_two(n1: int, n2: int, r: str) -> bool:
     """
-    pre: 0 <= n1 < 65536 and 0 <= n2 < 65536 and len(r) == 1
+    pre: 0 <= n1 < 65536 and 0 <= n2 < 65536 and len(r) <= 1
     pre: all(ord(c) < 256 for c in r)
     post: _
     """
@@ -191,12 +192,11 @@ def _nbytes_shards(tier):
 HARNESSES = [
     H(ns_roundtrip, shards=lambda tier: [("len(s) == %d" % a,) for a in range(BOUNDS[tier]["s"] + 1)],
       timeout={"quick": 60, "thorough": 600}),
-    H(ns_two, shards=lambda tier: [("len(s1) == %d" % a,) for a in range(BOUNDS[tier]["s2"] + 1)],
+    H(ns_two,
       timeout={"quick": 60, "thorough": 600}),
-    H(mp_roundtrip, shards=lambda tier: [s + ("len(r) == %d" % c,) for s in _nbytes_shards(tier)
-                                         for c in range(BOUNDS[tier]["r"] + 1)],
+    H(mp_roundtrip, shards=lambda tier: [("n < 2 ** 32",), ("n >= 2 ** 32",)],
       timeout={"quick": 60, "thorough": 900}),
-    H(mp_two, shards=[("n1 == 0",), ("n1 == 128",), ("n1 == 65535",)], timeout={"quick": 60, "thorough": 600}),
+    H(mp_two, timeout={"quick": 60, "thorough": 600}),
 ]
 
 # vectors: twisted.conch.test.test_ssh / RFC 4251 section 5 examples
